@@ -1,4 +1,5 @@
 import NeverModel.Model.Src
+import NeverModel.Model.SrcMod
 import Driver.Util
 open Never Never.Src Drv
 namespace SrcDrv
@@ -165,22 +166,42 @@ partial def qualOf : SX → Except String Qual
   | _ => throw "bad qualifier"
 end
 
+def recsOf (rs : List SX) : Except String (List RecDecl) :=
+  rs.mapM fun r => match r with
+    | .list (.atom "rec" :: .atom n :: flds) => do pure ({ name := n, fields := ← fieldsOf flds } : RecDecl)
+    | _ => throw "bad record decl"
+
+def enumsOf (es : List SX) : Except String (List EnumDecl) :=
+  es.mapM fun e => match e with
+    | .list (.atom "enum" :: .atom n :: items) => do
+      let its ← items.mapM fun it => match it with
+        | .list [.atom "item", .atom i, .atom v] => do pure ({ name := i, value := ← intOf v, fields := none } : EnumItem)
+        | .list (.atom "item" :: .atom i :: .atom v :: .list [.atom "payload"] :: flds) => do
+          pure ({ name := i, value := ← intOf v, fields := some (← fieldsOf flds) } : EnumItem)
+        | _ => throw "bad enum item"
+      pure ({ name := n, items := its } : EnumDecl)
+    | _ => throw "bad enum decl"
+
 def progOf : SX → Except String Prog
   | .list [.atom "prog", .list (.atom "recs" :: rs), .list (.atom "enums" :: es), .list (.atom "funcs" :: fs)] => do
-    let rs' ← rs.mapM fun r => match r with
-      | .list (.atom "rec" :: .atom n :: flds) => do pure ({ name := n, fields := ← fieldsOf flds } : RecDecl)
-      | _ => throw "bad record decl"
-    let es' ← es.mapM fun e => match e with
-      | .list (.atom "enum" :: .atom n :: items) => do
-        let its ← items.mapM fun it => match it with
-          | .list [.atom "item", .atom i, .atom v] => do pure ({ name := i, value := ← intOf v, fields := none } : EnumItem)
-          | .list (.atom "item" :: .atom i :: .atom v :: .list [.atom "payload"] :: flds) => do
-            pure ({ name := i, value := ← intOf v, fields := some (← fieldsOf flds) } : EnumItem)
-          | _ => throw "bad enum item"
-        pure ({ name := n, items := its } : EnumDecl)
-      | _ => throw "bad enum decl"
-    pure { recs := rs', enums := es', funcs := ← fs.mapM funcOf }
+    pure { recs := ← recsOf rs, enums := ← enumsOf es, funcs := ← fs.mapM funcOf }
   | _ => throw "bad prog"
+
+/-- `(unit name (uses n…) (recs …) (enums …) (items item…))` -/
+def unitOf : SX → Except String Mod.Unit
+  | .list [.atom "unit", .atom n, .list (.atom "uses" :: us), .list (.atom "recs" :: rs), .list (.atom "enums" :: es),
+      .list (.atom "items" :: its)] => do
+    pure { name := nm n, uses := ← us.mapM atomOf, recs := ← recsOf rs, enums := ← enumsOf es, items := ← its.mapM itemOf }
+  | _ => throw "bad unit"
+
+/-- a program: `(prog …)` (one core program) or `(units main-unit unit…)` (elaborated by `Never.Src.Mod.elaborate`;
+`none` = refused: a `use` cycle / no main) -/
+def programOf : SX → Except String (Option Prog)
+  | .list (.atom "units" :: m :: us) => do
+    let mu ← unitOf m
+    let us' ← us.mapM unitOf
+    pure (if Mod.cyclic us' mu then none else Mod.elaborate mu us')
+  | sx => do pure (some (← progOf sx))
 
 def valStr : Val → String
   | .int v => s!"int:{v.toInt}"
@@ -282,9 +303,10 @@ def main : IO Unit := do
       match parseSX toks 0 with
       | none => stdout.putStrLn s!"RESULT {id} parse-error sexpr"
       | some (sx, _) =>
-        match progOf sx with
+        match programOf sx with
         | .error e => stdout.putStrLn s!"RESULT {id} parse-error {e.replace " " "_"}"
-        | .ok p =>
+        | .ok none => stdout.putStrLn s!"RESULT {id} rejected cyclic_use_or_no_main out= clos= raised="
+        | .ok (some p) =>
           let as := args.map argOf
           let fu := fuel.toNat!
           let r := runMain p as fu
